@@ -4,12 +4,14 @@ package fw
 
 import (
 	"bufio"
+	"encoding/binary"
 	"encoding/json"
 	"fmt"
 	"hash/fnv"
 	"os"
 	"os/exec"
 	"path/filepath"
+	"regexp"
 	"sort"
 	"strconv"
 	"strings"
@@ -338,6 +340,15 @@ func RunParent(id, tier string, seed int64) int {
 			if len(tail) > 3000 {
 				tail = tail[len(tail)-3000:]
 			}
+			// A worker that dies of a Go fatal error (stack exhaustion, out of memory, concurrent map access) was killed by the code under
+			// test, not by the harness: re-run the shard in careful mode (every evaluation is recorded before it starts) and report it.
+			if v, ok := fatalShard(exe, work, id, tier, seed, budget, i, n, string(lg)); ok {
+				merged.Viol[v.Sig] = append(merged.Viol[v.Sig], v)
+				merged.ViolN[v.Sig]++
+				merged.Exhaustive = false
+				merged.Notes = append(merged.Notes, fmt.Sprintf("shard %d/%d died of a fatal runtime error; its cases are not counted", i, n))
+				continue
+			}
 			fmt.Fprintf(os.Stderr, "HARNESS-ERROR worker %d/%d of %s failed: %v\n%s\n", i, n, id, errs[i], tail)
 			return 2
 		}
@@ -541,6 +552,54 @@ func clip(s string, n int) string {
 	return s
 }
 
+var fatalRe = regexp.MustCompile(`(?m)^(fatal error: [^\n]*|runtime: goroutine stack exceeds[^\n]*)`)
+var yqFrameRe = regexp.MustCompile(`github\.com/mikefarah/yq/v4/pkg/yqlib\.([\w\.\(\)\*]+)\(`)
+
+type fatalCase struct {
+	FatalShard string `json:"fatal_shard"`
+	Tier       string `json:"tier"`
+	Seed       int64  `json:"seed"`
+	Budget     int    `json:"budget_s"`
+	Last       string `json:"last_evaluation_started"`
+}
+
+func runShardCareful(exe, dir, id string, fc fatalCase) (crashed bool, log string, last string) {
+	rec := filepath.Join(dir, "careful-"+strings.ReplaceAll(fc.FatalShard, "/", "of"))
+	os.Remove(rec)
+	cmd := exec.Command(exe, "worker", id, "--tier", fc.Tier, "--shard", fc.FatalShard, "--seed", fmt.Sprint(fc.Seed), "--budget", fmt.Sprint(fc.Budget), "--out", rec+".json")
+	cmd.Env = append(os.Environ(), "GOMAXPROCS=2", "TZ=UTC", "MC_CAREFUL="+rec)
+	out, err := cmd.CombinedOutput()
+	if b, rerr := os.ReadFile(rec); rerr == nil && len(b) >= 8 {
+		k := int(binary.LittleEndian.Uint64(b[:8]))
+		if k <= len(b)-8 {
+			last = string(b[8 : 8+k])
+		}
+	}
+	os.Remove(rec)
+	os.Remove(rec + ".json")
+	return err != nil && fatalRe.Match(out), string(out), last
+}
+
+func fatalShard(exe, work, id, tier string, seed int64, budget time.Duration, i, n int, log string) (Violation, bool) {
+	if !fatalRe.MatchString(log) {
+		return Violation{}, false
+	}
+	fc := fatalCase{FatalShard: fmt.Sprintf("%d/%d", i, n), Tier: tier, Seed: seed, Budget: int(budget.Seconds())}
+	crashed, log2, last := runShardCareful(exe, work, id, fc)
+	if !crashed {
+		return Violation{}, false
+	}
+	fc.Last = last
+	kind := fatalRe.FindString(log2)
+	frame := ""
+	if m := yqFrameRe.FindStringSubmatch(log2); m != nil {
+		frame = m[1]
+	}
+	cs, _ := json.Marshal(fc)
+	return Violation{Sig: "fatal/" + frame + "/" + kind, Case: cs, Order: -1,
+		Detail: fmt.Sprintf("the process evaluating this shard dies of %q (cannot be recovered from by a caller); evaluation in progress: %s\n%s", kind, clip(last, 600), clip(log2, 1500))}, true
+}
+
 func replayInFreshProcess(exe, id string, v Violation) (bool, string, error) {
 	f, err := os.CreateTemp("", "mc-replay-*.json")
 	if err != nil {
@@ -581,6 +640,21 @@ func RunReplay(path string) int {
 	if ck == nil || ck.Replay == nil {
 		fmt.Fprintf(os.Stderr, "no replay for %s\n", rep.Property)
 		return 2
+	}
+	var fc fatalCase
+	if json.Unmarshal(rep.Case, &fc) == nil && fc.FatalShard != "" {
+		exe, _ := os.Executable()
+		dir, _ := os.MkdirTemp("", "mc-fatal-")
+		defer os.RemoveAll(dir)
+		crashed, log, last := runShardCareful(exe, dir, rep.Property, fc)
+		if crashed {
+			if os.Getenv("MC_REPLAY_CHILD") == "" {
+				fmt.Printf("VIOLATION property=%s replay=%s\n  fatal runtime error while evaluating %s\n%s\n", rep.Property, path, clip(last, 600), clip(log, 1500))
+			}
+			return 1
+		}
+		fmt.Printf("replay of %s: the shard completes without a fatal error\n", path)
+		return 0
 	}
 	bad, detail, err := ck.Replay(rep.Case)
 	if err != nil {
